@@ -1,5 +1,6 @@
 import Generated.GenAppend
 import Props.GenCommon
+import Proofs.OMap
 import Props.GenTraverse
 import Props.GenMisc
 import Props.GenIterator
@@ -204,5 +205,48 @@ theorem appendPlan_eq (l : Log) (pcOpt : Int)
   simp only [gohelper, search_true, List.any_beq, hnext, hin, hrefs1]
   rw [refs_fold]
   simp
+
+/-! ### The tail of `Append`: publication of the created entry -/
+
+theorem dedupHashes_eq_foldl (l : List Hash) : ∀ (acc : List Hash), dedupHashes l acc = l.foldl hsSet acc := by
+  induction l with
+  | nil => intro acc; rfl
+  | cons h t ih =>
+    intro acc
+    rw [dedupHashes, List.foldl_cons]
+    unfold hsSet
+    by_cases hc : acc.contains h = true
+    · simp only [hc, if_true]; exact ih acc
+    · simp only [hc, Bool.false_eq_true, if_false]; exact ih _
+
+theorem hsSet_of_mem {x : List Hash} {h : Hash} (hm : h ∈ x) : hsSet x h = x := by
+  show (if x.contains h = true then x else x ++ [h]) = x
+  rw [if_pos (List.contains_iff_mem.mpr hm)]
+
+theorem foldl_hsSet_foldl (s : List Hash) (l : List Hash) : ∀ (a : List Hash),
+    (l.foldl hsSet a).foldl hsSet s = l.foldl hsSet (a.foldl hsSet s) := by
+  induction l with
+  | nil => intro a; rfl
+  | cons h t ih =>
+    intro a
+    rw [List.foldl_cons, List.foldl_cons, ih]
+    congr 1
+    by_cases hc : a.contains h = true
+    · have hm : h ∈ a.foldl hsSet s := (mem_foldl_hsSet a s h).mpr (Or.inr (List.contains_iff_mem.mp hc))
+      have h1 : hsSet a h = a := hsSet_of_mem (List.contains_iff_mem.mp hc)
+      have h2 : hsSet (a.foldl hsSet s) h = a.foldl hsSet s := hsSet_of_mem hm
+      rw [h1, h2]
+    · have h1 : hsSet a h = a ++ [h] := by unfold hsSet; simp only [hc, Bool.false_eq_true, if_false]
+      rw [h1, List.foldl_append]
+      rfl
+
+/-- **the tail of `Append`, translated, is the model's `appendApply`** — for the entry `CreateEntryWithIO` returns,
+    whose predecessor list is the de-duplicated `next` (`Entry.Copy`, `uniqueCIDs_eq`) -/
+theorem appendTail_eq (l : Log) (e : Entry) (next : List Hash) (he : e.next = dedupHashes next []) :
+    Generated.Go.appendTail l.entries l.nextIdx l.heads e next =
+      some ((appendApply l e).entries, (appendApply l e).nextIdx, (appendApply l e).heads) := by
+  unfold Generated.Go.appendTail appendApply
+  simp only [setInsert_eq_hsSet', he, dedupHashes_eq_foldl, foldl_hsSet_foldl]
+  rfl
 
 end Model.SlicesGen
